@@ -27,7 +27,7 @@ def gen_case(rng, i, tier):
     lens = [int(l.split(" ")[4]) for l in links]
     rates = [int(l.split(" ")[2]) for l in links]
     total = sum(lens)
-    ops = ["case %d" % i] + links + V.gen_splits(rng, links) + ["table", "ref 0", "open 0 1 %d" % rng.choice([4096, 1, 513, 100000])]
+    ops = ["case %d" % i] + V.with_mux(rng, links) + V.gen_splits(rng, links) + ["table", "ref 0", "open 0 1 %d" % rng.choice([4096, 1, 513, 100000])]
     bounds = [0]
     for n in lens:
         bounds.append(bounds[-1] + n)
